@@ -293,6 +293,8 @@ class C11:
                     args['new_name'] = 'tied_%d' % ntie
                 if rng.random() < 0.08:
                     args['bogus'] = 'no_such_parameter'
+                if rng.random() < 0.1:
+                    args['name_from'] = rng.randrange(24)
                 b.emit('add_tie', args, tags={'k': 'tie', 'tie': True})
             elif c < 0.7:
                 b.emit('mutate_returned', {
@@ -876,7 +878,13 @@ class C11:
                 cls = st['classes'][st['names'].index(u)]
                 defs.append(self._prior_def(ex, sorted(cls, key=str)[0]))
             legal = all(d == defs[0] for d in defs)
+        new_name = (rec.get('extra') or {}).get(
+            'new_name', ev['args'].get('new_name'))
+        collides = new_name is not None and new_name in st['names'] and \
+            new_name not in used
         if rec['outcome'] == 'exc':
+            if rec['exc'] == 'ValueError' and collides:
+                return      # a name already taken may be refused
             if legal or rec['exc'] != 'ValueError':
                 ex.add(violation(
                     'C11.tie', ev['id'],
@@ -893,7 +901,6 @@ class C11:
         merged = set()
         for i in idx:
             merged |= st['classes'][i]
-        new_name = ev['args'].get('new_name')
         names, classes = [], []
         for i, (n_, c) in enumerate(zip(st['names'], st['classes'])):
             if i == idx[0]:
@@ -906,6 +913,16 @@ class C11:
                 classes.append(c)
         st['names'], st['classes'] = names, classes
         after = dict(rec['payload']['__dict__'])['names_after']
+        if len(set(after)) != len(after):
+            ex.add(violation(
+                'C11.tie', ev['id'],
+                'after tying %r as %r two parameters share a name: %r' % (
+                    used, new_name, after), sig='C11.tie:duplicate-name'))
+            return
+        if collides:
+            # accepted with another (unique) name: follow the library
+            names = list(after) if len(after) == len(names) else names
+            st['names'] = names
         if after != names:
             ex.add(violation(
                 'C11.tie', ev['id'],
